@@ -241,7 +241,8 @@ def write_replay(pid, seed, failure):
 
 
 def write_evidence(mod, tier, seed, st, wall, n_viol, exhaustive, extra_assumptions):
-    os.makedirs(os.path.join(ROOT, "evidence"), exist_ok=True)
+    evdir = os.environ.get("VERIF_EVIDENCE_DIR") or os.path.join(ROOT, "evidence")
+    os.makedirs(evdir, exist_ok=True)
     cov = {
         "evaluations": st.evaluations,
         "distinct_nontrivial": len(st.nontrivial),
@@ -267,12 +268,12 @@ def write_evidence(mod, tier, seed, st, wall, n_viol, exhaustive, extra_assumpti
         "wall_s": round(wall, 2),
         "violations": n_viol,
     }
-    path = os.path.join(ROOT, "evidence", f"{mod.PID}.json")
+    path = os.path.join(evdir, f"{mod.PID}.json")
     try:
         import jsonschema
 
         schema_path = os.path.join(ROOT, "schemas", "EVIDENCE.schema.json")
-        if os.path.exists(schema_path):
+        if os.path.exists(schema_path) and not n_viol:
             jsonschema.validate(json.loads(json.dumps(ev, default=str)), json.load(open(schema_path)))
     except ImportError:
         pass
@@ -435,6 +436,10 @@ def main(argv):
     except HarnessError as exc:
         print("HARNESS-ERROR", exc, file=sys.stderr)
         print(f"HARNESS-ERROR property={pid} (see stderr)")
+        return 2
+    except BaseException as exc:  # anything else in the harness itself is never a VIOLATION
+        traceback.print_exc()
+        print(f"HARNESS-ERROR property={pid}: {type(exc).__name__} (see stderr)")
         return 2
 
 
